@@ -55,10 +55,11 @@ EXC_PARENTS = {"ValueError": ("ValueError", "Exception", "BaseException"),
 
 
 class Interp(object):
-    def __init__(self, func_node, module_env=None, builtins=None, max_steps=4000):
+    def __init__(self, func_node, module_env=None, builtins=None, max_steps=4000, module_funcs=None):
         self.fn = func_node
         self.module_env = module_env or {}
         self.builtins = builtins or {}
+        self.module_funcs = module_funcs or {}      # name -> FunctionDef of the same module (private helpers are interpreted too)
         self.steps = 0
         self.max_steps = max_steps
 
@@ -188,6 +189,8 @@ class Interp(object):
                 return env[e.id]
             if e.id in self.module_env:
                 return self.module_env[e.id]
+            if e.id in self.module_funcs:
+                return ("func", e.id)
             if e.id in ("True", "False", "None"):
                 return {"True": True, "False": False, "None": None}[e.id]
             if e.id in TYPE_NAMES or e.id in self.builtins or e.id in ("len", "isinstance", "str", "int", "getattr",
@@ -376,6 +379,13 @@ class Interp(object):
                     return list(x) if name == "list" else tuple(x)
                 raise Undecided("%s(%r)" % (name, x))
             raise Undecided("builtin %s" % name)
+        if isinstance(f, tuple) and f and f[0] == "func":
+            sub = Interp(self.module_funcs[f[1]], self.module_env, self.builtins, self.max_steps, self.module_funcs)
+            sub.steps = self.steps
+            try:
+                return sub.call(*args, **kwargs)
+            finally:
+                self.steps = sub.steps
         if isinstance(f, Opaque):
             return Opaque("%s()" % f.label)
         raise Undecided("call of %s" % unparse(e.func))
